@@ -39,6 +39,19 @@ COMMENT_CTX = ["/*c*/,", " /* c **/ )"]            # comment between the value a
 EXTRACTORS = ["p21lex", "enums", "p21rw", "attrnull", "stepfile"]
 
 
+FLT_MIN_BITS = "3810000000000000"          # (double)FLT_MIN: the in-band null, written as `$`
+WR_CLASS = "wr:REAL:not-determined-by-15-digits"
+
+
+def fifteen_digits_determine(bits):
+    import struct as _st
+    x = _st.unpack(">d", _st.pack(">Q", int(bits, 16)))[0]
+    try:
+        return float("%.15G" % x) == x
+    except (ValueError, OverflowError):
+        return False
+
+
 def hx(b):
     if isinstance(b, str):
         b = b.encode("latin-1")
@@ -340,10 +353,25 @@ def evaluate(ctx, batch, real_cmd, model_cmd, env, problems, reasons):
                     elif rr.get("sev") != "NULL" or rr.get("val") != meta[4]:
                         why = f"written token {w!r} reads back as {rr.get('val')} ({rr.get('sev')}), value written was {meta[4]}"
             if why:
+                vkey = f"wr:{meta[1]}:{meta[2]}"
                 rs = ("wr-" + meta[1], reason_of(why))
+                if meta[1] in ("REAL", "NUMBER") and not fifteen_digits_determine(meta[2]):
+                    # the 15-digit writer: a double that 15 significant digits do not determine reads back as another double
+                    vkey = WR_CLASS
+                    rs = ("wr-class", "15")
+                    why = "WriteReal prints 15 significant digits only: " + why
+                    from vlib import findings as KF
+                    if KF.lookup(ctx.pid, vkey):
+                        if ("known", vkey) not in reasons:
+                            reasons[("known", vkey)] = True
+                            problems.append(("property", vkey, why, {"request": line}))
+                        nprob += 1
+                        if r != " | ".join(parts[:2]):
+                            problems.append(("correspondence", line, f"impl {r!r} vs model {' | '.join(parts[:2])!r}", None))
+                        continue
                 if rs not in reasons:
                     reasons[rs] = True
-                    problems.append(("property", f"wr:{meta[1]}:{meta[2]}", why,
+                    problems.append(("property", vkey, why,
                                      {"request": line, "implementation": r, "how": "feed `request` to harness/h_literals.cc"}))
                 nprob += 1
                 continue
@@ -426,7 +454,18 @@ def evaluate(ctx, batch, real_cmd, model_cmd, env, problems, reasons):
         else:   # fl / st : pure model-vs-platform comparisons (FloatLaws L1-L3, IStream)
             ctx.count(1, key=line)
             ctx.hist("kind", meta[0])
-            if len(meta) > 1 and meta[1] == "g15":
+            if len(meta) > 2 and meta[1] == "g17":
+                # law L1' on the platform: the 17-digit print converts back to the same double
+                import struct as _st
+                txt = unhx(r.split()[1]).decode("latin-1") if len(r.split()) > 1 else ""
+                try:
+                    back = "%016X" % _st.unpack(">Q", _st.pack(">d", float(txt)))[0]
+                except ValueError:
+                    back = "?"
+                if back != meta[2] and not (int(meta[2], 16) << 1 == 0 and int(back, 16) << 1 & (2 ** 64 - 1) == 0):
+                    problems.append(("correspondence", line, f"FloatLaws L1': %.17G printed {txt!r}, which converts back to {back}, not {meta[2]}", None))
+                    nprob += 1
+            if len(meta) > 1 and meta[1] in ("g15", "g16", "g17"):
                 # law L2 (G15Shape in Props/C09.lean) on the platform's own output
                 import re as _re
                 txt = unhx(r.split()[1]).decode("latin-1") if len(r.split()) > 1 else ""
@@ -554,14 +593,19 @@ def literal_batches(ctx, quick):
         bits = dbl_bits(x)
         for kind in ("REAL", "NUMBER"):
             b.raw(f"wr {kind} {bits}", ("wr", kind, bits, True, f"r:{bits}"))
-    # powers of two and random doubles: correspondence only (15 digits cannot reproduce them)
+    # powers of two, random doubles, the values 15 digits do not determine: the property says "reads back to the same value"
+    # for these too (class key WR_CLASS while WriteReal prints 15 digits only)
+    special = [0.1 + 0.2, 1.0 / 3, 2.0 / 3, 1.7976931348623157e308, 2.2250738585072014e-308, 5e-324, 123456789012345.67, 0.1]
+    for x in special + [-x for x in special]:
+        for kind in ("REAL", "NUMBER"):
+            b.raw(f"wr {kind} {dbl_bits(x)}", ("wr", kind, dbl_bits(x), True, f"r:{dbl_bits(x)}"))
     for k in range(-1070, 1024, 37 if quick else 3):
-        b.raw(f"wr REAL {dbl_bits(2.0 ** k)}", ("wr", "REAL", dbl_bits(2.0 ** k), False, ""))
+        b.raw(f"wr REAL {dbl_bits(2.0 ** k)}", ("wr", "REAL", dbl_bits(2.0 ** k), dbl_bits(2.0 ** k) != FLT_MIN_BITS, f"r:{dbl_bits(2.0 ** k)}"))
     for _ in range(300 if quick else 20000):
         bits = "%016X" % rng.getrandbits(64)
         if (int(bits, 16) >> 52) & 0x7FF == 0x7FF:
             continue
-        b.raw(f"wr REAL {bits}", ("wr", "REAL", bits, False, ""))
+        b.raw(f"wr REAL {bits}", ("wr", "REAL", bits, True, f"r:{bits}"))
     out.append(b)
     b = Batch("writer-other")
     for nm in ("T", "F"):
@@ -581,6 +625,16 @@ def literal_batches(ctx, quick):
     b = Batch("floatlaws-g15")
     for x in real_grid(3 if quick else 1):
         b.raw(f"fl g15 {dbl_bits(x)}", ("fl", "g15"))
+    # the other two precisions of the repaired WriteReal, and law L1' (17 significant digits determine every double)
+    for k in range(-1074, 1024, 23 if quick else 2):
+        for p in (16, 17):
+            b.raw(f"fl g{p} {dbl_bits(2.0 ** k)}", ("fl", f"g{p}", dbl_bits(2.0 ** k)))
+    for _ in range(1500 if quick else 60000):
+        bits = "%016X" % rng.getrandbits(64)
+        if (int(bits, 16) >> 52) & 0x7FF == 0x7FF:
+            continue
+        for p in (16, 17):
+            b.raw(f"fl g{p} {bits}", ("fl", f"g{p}", bits))
     for k in range(-1074, 1024, 11 if quick else 1):
         b.raw(f"fl g15 {dbl_bits(2.0 ** k)}", ("fl", "g15"))
     for _ in range(2000 if quick else 100000):
@@ -751,9 +805,12 @@ def setup(ctx):
     # the driver does not depend on the theorems: build it first so that the violation search runs even when a proof breaks
     # p21rw / attrnull / stepfile: the aggregate theorems and the `ag` driver command run on the reader model of P21/Reader.lean
     # (property C01), whose generated tables must come from the tree being checked as well
-    files, errs = L.regenerate(EXTRACTORS, repo=B.REPO)
+    # ... but only in a private copy of the Lean project (VERIF_REPO = another tree): in /verif/lean itself those files belong
+    # to the C01/C15 owners, whose extractors may be in the middle of an edit
+    ex = EXTRACTORS if os.path.realpath(B.REPO) != "/repo" else EXTRACTORS[:2]
+    files, errs = L.regenerate(ex, repo=B.REPO)
     okd, outd = L.lake_build(["m_c09"])
-    proof_ok = ctx.lean("StepModel.Props.C09", exes=["m_c09"], extractors=EXTRACTORS)
+    proof_ok = ctx.lean("StepModel.Props.C09", exes=["m_c09"], extractors=ex)
     if not okd:
         raise RuntimeError("model driver m_c09 does not build: " + outd[-1500:])
     return proof_ok
